@@ -220,6 +220,47 @@ def evaluate(lines, impl, model):
     return mism, ofail, crashed, nontriv, dist
 
 
+# assertions of /repo that a scenario of the api harness can reach only OUTSIDE the domain of the placement properties (substring of the
+# glibc assertion line -> why it is outside)
+KNOWN_OUT_OF_DOMAIN_ASSERTS = {
+    "computeSubdivisions(int, int, int): Assertion `max >= min' failed":
+        "utils/helpers.hpp:12, reached from DensityGrid::fromIspdCircuit in global placement when the side margin (sideMargin x the smallest positive cell "
+        "height; INT_MAX-based when no cell has a positive height) removes EVERY row: circuits without a movable cell of positive area / with rows "
+        "narrower than the margin are excluded from the quantifier of C06/C07; the scenario generator of harness/api.cpp does not avoid them",
+}
+NO_OUTCOME_LIMIT = 0.02      # fraction of the scenario runs that may end without an outcome (all of them of a KNOWN cause) before the run fails
+
+
+def no_outcome_causes(harness, crashed, max_rerun=300, has_outcome=None):
+    """every scenario run without an outcome is run again ALONE with its stderr captured (the harness survives the abort through its signal
+    handler, so the batch run only shows 'SIGNAL ABORT'); returns (causes: text -> count, known: text -> count, unknown: [(case, cause)])"""
+    import re
+    import subprocess
+    causes, known, unknown = {}, {}, []
+    for l, r in crashed[:max_rerun]:
+        try:
+            p = subprocess.run([harness, "run"], input=l + "\n", capture_output=True, text=True, timeout=300, env=common.HARNESS_ENV)
+            se, so = p.stderr, p.stdout
+        except subprocess.TimeoutExpired:
+            se, so = "TIMEOUT", ""
+        m = re.findall(r"[\w./]+:\d+: [^\n]*Assertion `[^']*' failed", se)
+        if m:
+            cause = re.sub(r"^\S*/src/", "src/", m[0])
+        elif (has_outcome or (lambda o: split3(o) is not None))(so.strip().split("\n")[0] if so.strip() else ""):
+            cause = "NOT REPRODUCED: the same scenario run alone has an outcome (batch result: %s)" % r[:80]
+        else:
+            cause = "no assertion text: batch result %s, alone: %s %s" % (r[:80], so.strip()[:80], se.strip()[-160:])
+        causes[cause] = causes.get(cause, 0) + 1
+        k = next((a for a in KNOWN_OUT_OF_DOMAIN_ASSERTS if a in cause), None)
+        if k:
+            known[k] = known.get(k, 0) + 1
+        else:
+            unknown.append((l, cause))
+    for l, r in crashed[max_rerun:]:
+        unknown.append((l, "not classified (more than %d runs without outcome)" % max_rerun))
+    return causes, known, unknown
+
+
 def run(ctx):
     from checks import c03
     from tools import circuit_access
@@ -257,7 +298,13 @@ def run(ctx):
                                           "detail": proof}, found_input=False)
             else:
                 ctx.violation("proof obligations of Properties_C10.v do not check", {"broken": "Properties_C10.v", "detail": proof}, found_input=False)
-    if crashed and len(crashed) * 50 > len(lines):
+    causes, known_causes, unknown_causes = no_outcome_causes(harness, crashed)
+    if unknown_causes:
+        ctx.violation("%d of %d scenario runs ended without an outcome (abort / crash inside a placement call) for a cause that is NOT one of the known out-of-domain "
+                      "assertions (%s): first cause: %s" % (len(unknown_causes), len(lines), "; ".join(KNOWN_OUT_OF_DOMAIN_ASSERTS), unknown_causes[0][1]),
+                      {"broken": "correspondence of coq/Api.v with the placement entry points: a scenario run without outcome (crash freedom itself is property C07)",
+                       "first": {"case": unknown_causes[0][0], "format": FORMAT, "cause": unknown_causes[0][1]}, "causes": causes}, found_input=False)
+    if crashed and len(crashed) > NO_OUTCOME_LIMIT * len(lines):
         ctx.violation("the harness got no outcome for %d of %d scenario runs (abort/crash inside a placement call): the correspondence cannot be established"
                       % (len(crashed), len(lines)), {"broken": "harness runs", "first": {"case": crashed[0][0], "output": crashed[0][1]}}, found_input=False)
     cov = dict(proof)
@@ -280,11 +327,18 @@ def run(ctx):
                         "(legalize or detailed, valid or invalid parameters) followed by setters again. non-trivial = a guarded setter was issued inside a callback or the call "
                         "ended by an exception; distinct = distinct case lines",
                 "distribution": dist, "exhaustive_per_instance": True, "no_outcome_runs": len(crashed),
+                "no_outcome": {"runs": len(crashed), "of": len(lines), "limit_fraction": NO_OUTCOME_LIMIT, "by_cause": causes,
+                               "known_out_of_domain_assertions": KNOWN_OUT_OF_DOMAIN_ASSERTS, "of_known_cause": sum(known_causes.values()),
+                               "of_unknown_cause": len(unknown_causes), "first_cases": [c[0][:300] for c in crashed[:3]],
+                               "rule": "every run without an outcome is run again alone to read its assertion text; a cause outside the known out-of-domain "
+                                       "assertions is reported as broken correspondence; more than limit_fraction of the runs without outcome fails the run"},
                 "samples": [lines[0][:600], lines[len(lines) // 2][:600], lines[-1][:600]] if lines else [],
                 "model_vs_impl_differences": len(mism), "impl_outputs_violating_statement": len(ofail)})
     return ctx.finish(LEVEL, cov, ["model tied to the code by exact comparison (outcome of every operation, hash of the full circuit state after every operation, final state) on the scenario runs of this check",
                                    "the entry points are modelled after the F9 repair (scope guard restoring the previous flag value)",
-                                   "a placement call issued from a callback is modelled without a callback of its own in the tie (the theorems allow one)"])
+                                   "a placement call issued from a callback is modelled without a callback of its own in the tie (the theorems allow one)",
+                                   "'a failed legalization leaves the placement as it was' (exception classes ELegalizer / EParams only) and 'the in-use flag is cleared' hold by the shape of the model (the algorithm oracles cannot write to the circuit or touch inUse): for the code they rest on this tie and on C03's access-table theorem",
+                                   "runs without an outcome (abort / crash) are tolerated up to 2 % of the scenario runs (no_outcome_runs); an instance whose counting run crashes contributes no throwing runs, so exhaustive_per_instance excludes the instances that abort"])
 
 
 def replay(ctx, path):
